@@ -6,6 +6,7 @@ import maps, classes with a C3 MRO, functions (methods and nested closures inclu
 module-level dict registries.  Nothing from the repository is imported or executed.
 """
 import ast
+import copy
 import hashlib
 import os
 import sys
@@ -134,10 +135,125 @@ class Program:
                     raise AnalysisError("cannot parse %s: %s" % (path, e))
                 m = Module(rel, path, src, tree)
                 m.gated = []
-                self._gate(m, os.path.relpath(path, self.root))
+                m.rel_to_root = os.path.relpath(path, self.root)
                 self.modules[rel] = m
+        self.renamed = []
+        if not os.environ.get("VERIF_NO_GATE"):
+            try:
+                self._undo_renames()
+            except AnalysisError:
+                raise
+            except Exception:
+                pass                      # (rename recovery is best effort: without it a renamed anchor is reported as vanished)
+        for m in self.modules.values():
+            self._gate(m, m.rel_to_root)
         for m in self.modules.values():
             self._index_module(m)
+
+    # ------------------------------------------------------------------ renamed functions
+    def _undo_renames(self):
+        """A module-level function or a method that exists in the reviewed copy and is missing here, while a new one with the same
+        function normal form (its own name apart) has appeared in the same module / class, was renamed: the new name is mapped back to
+        the reviewed one throughout the syntax trees the rules see (definition, calls, imports), so that anchors and call-name rules
+        keep working.  Line numbers are the current ones; the mapping is listed in the evidence."""
+        from .fnf import fnf, module_pure_helpers
+        ref_root = os.path.join(os.path.dirname(os.path.dirname(os.path.abspath(__file__))), "reference")
+        rtrees = {}
+        for m in self.modules.values():
+            rp = os.path.join(ref_root, m.rel_to_root)
+            if os.path.exists(rp):
+                with open(rp, "r", encoding="utf-8") as fh:
+                    rsrc = fh.read()
+                if rsrc != m.source:
+                    try:
+                        rtrees[m.name] = ast.parse(rsrc)
+                    except SyntaxError:
+                        pass
+        if not rtrees:
+            return
+
+        def anon(fn, helpers):
+            f = copy.deepcopy(fn)
+            own = f.name
+            f.name = "_F_"
+            for n in ast.walk(f):
+                if isinstance(n, ast.Name) and n.id == own:
+                    n.id = "_F_"
+            try:
+                return fnf(f, helpers)
+            except Exception:
+                return None
+        fmap = {}          # (module, new) -> old   for module-level functions
+        mmap = {}          # new attribute name -> old for methods
+        ref_attr_names = set()
+        for t in rtrees.values():
+            for n in ast.walk(t):
+                if isinstance(n, ast.Attribute):
+                    ref_attr_names.add(n.attr)
+                elif isinstance(n, (ast.FunctionDef, ast.ClassDef)):
+                    ref_attr_names.add(n.name)
+        for mname, rt in rtrees.items():
+            m = self.modules[mname]
+            try:
+                hc, hr = module_pure_helpers(m.tree), module_pure_helpers(rt)
+            except Exception:
+                hc = hr = {}
+
+            def scopes(tree):
+                out = {"": {n.name: n for n in tree.body if isinstance(n, (ast.FunctionDef, ast.AsyncFunctionDef))}}
+                for c in tree.body:
+                    if isinstance(c, ast.ClassDef):
+                        out[c.name] = {n.name: n for n in c.body if isinstance(n, (ast.FunctionDef, ast.AsyncFunctionDef))}
+                return out
+            cs, rs = scopes(m.tree), scopes(rt)
+            for scope in rs:
+                if scope not in cs:
+                    continue
+                missing = [o for o in rs[scope] if o not in cs[scope]]
+                added = [n for n in cs[scope] if n not in rs[scope]]
+                if not missing or not added:
+                    continue
+                ra = {o: anon(rs[scope][o], hr) for o in missing}
+                ca = {n: anon(cs[scope][n], hc) for n in added}
+                for o in missing:
+                    cands = [n for n in added if ca[n] is not None and ca[n] == ra[o]]
+                    back = [o2 for o2 in missing if ra[o2] is not None and cands and ra[o2] == ca[cands[0]]]
+                    if len(cands) == 1 and len(back) == 1:
+                        n = cands[0]
+                        if scope == "":
+                            fmap[(mname, n)] = o
+                        elif n not in ref_attr_names and not (n.startswith("__") and n.endswith("__")):
+                            mmap[n] = o
+                        cs[scope][n].name = o
+                        self.renamed.append("%s:%s%s -> %s" % (mname, scope + "." if scope else "", n, o))
+        if not fmap and not mmap:
+            return
+        for m in self.modules.values():
+            pkg_of = m.name if m.path.endswith("__init__.py") else m.name.rpartition(".")[0]
+            local = {}                   # local name -> old name, for names that refer to a renamed function in this module
+            for (mod, n), o in fmap.items():
+                if mod == m.name:
+                    local[n] = o
+            for node in ast.walk(m.tree):
+                if isinstance(node, ast.ImportFrom):
+                    base = node.module or ""
+                    if node.level:
+                        parts = pkg_of.split(".")
+                        parts = parts[:len(parts) - (node.level - 1)]
+                        base = ".".join(parts + ([node.module] if node.module else []))
+                    for a in node.names:
+                        if (base, a.name) in fmap:
+                            o = fmap[(base, a.name)]
+                            if a.asname is None:
+                                local[a.name] = o
+                            a.name = o
+            renamed_attrs = dict(mmap)
+            renamed_attrs.update({n: o for (mod, n), o in fmap.items() if n not in ref_attr_names})
+            for node in ast.walk(m.tree):
+                if isinstance(node, ast.Name) and node.id in local:
+                    node.id = local[node.id]
+                elif isinstance(node, ast.Attribute) and node.attr in renamed_attrs:
+                    node.attr = renamed_attrs[node.attr]
 
     # ------------------------------------------------------------------ normal-form gate
     def _gate(self, m, relpath):
